@@ -675,7 +675,17 @@ def _evaluate(item):
         seq = dict(opts)
         seq.pop("parallel")
         o1, t1 = dst_tree_of((shapes, pdoc, seq, entry))
-        o2, t2 = dst_tree_of(case)
+        from multiprocessing.pool import ThreadPool as RealPool
+
+        from signac import sync as ssync
+        saved = getattr(ssync, "ThreadPool", None)
+        if saved is not None:
+            ssync.ThreadPool = RealPool  # this comparison is the free-running smoke test
+        try:
+            o2, t2 = dst_tree_of(case)
+        finally:
+            if saved is not None:
+                ssync.ThreadPool = saved
         viol = []
         if (o1, t1) != (o2, t2):
             viol.append({"prop": "C15", "sig": {"kind": "parallel-differs-from-sequential"}, "scenario": entry,
@@ -685,7 +695,76 @@ def _evaluate(item):
         viol = [v for v in viol if v["prop"] == _PROP]
         return {"cls": f"parallel:{o2}", "viol": viol, "n": 2, "nt": f"parallel|{'+'.join(shapes)}|{opts['parallel']}|{o2}",
                 "sample": {"shapes": list(shapes), "opts": opts, "outcome": o2}}
+    if kind == "tparallel":
+        return _evaluate_threads(item[1], item[2])
     raise ValueError(kind)
+
+
+def _evaluate_threads(case, bound):
+    """Every interleaving (<= bound preemptions, scheduling points before every mutating system call) of the pool's
+    threads must leave the destination tree, and end with the outcome, of the sequential run."""
+    import json
+
+    from signac import sync as ssync
+
+    from .. import engine_t
+    shapes, pdoc, opts, entry = case
+    seq = dict(opts)
+    seq.pop("parallel")
+    o1, t1 = dst_tree_of((shapes, pdoc, seq, entry))
+    want = json.dumps([o1, t1], sort_keys=True, default=str)
+
+    def run_once(sched):
+        orig = getattr(ssync, "ThreadPool", None)
+        if orig is not None:
+            ssync.ThreadPool = engine_t.make_pool_class(sched)
+        try:
+            o, t = dst_tree_of(case)
+        finally:
+            if orig is not None:
+                ssync.ThreadPool = orig
+        return json.dumps([o, t], sort_keys=True, default=str)
+    res = engine_t.explore(run_once, bound)  # engine_t.HarnessError propagates: reported as HARNESS-ERROR, never as a violation
+    t1 = json.loads(want)[1]
+    viol = []
+    for obs, sched in res["observations"].items():
+        if obs != want:
+            o2, t2 = json.loads(obs)
+            viol.append({"prop": "C15", "sig": {"kind": "parallel-schedule-differs-from-sequential"}, "scenario": entry,
+                         "input": {"kind": "tparallel", "shapes": list(shapes), "pdoc": pdoc, "opts": opts, "entry": entry,
+                                   "schedule": sched, "bound": bound},
+                         "expected": o1, "observed": o2,
+                         "msg": f"parallel={opts['parallel']} under thread schedule {sched}: outcome {o2} vs sequential {o1}; "
+                                f"tree diff {canon.snap_diff(t1, t2)[:5]}"})
+    viol = [v for v in viol if v["prop"] == _PROP]
+    return {"cls": f"tparallel:{o1}", "viol": viol[:3], "n": res["schedules"],
+            "nt": f"tparallel|{'+'.join(shapes)}|{opts['parallel']}|{o1}|{res['points_max']}",
+            "sample": {"shapes": list(shapes), "opts": opts, "schedules": res["schedules"], "points_max": res["points_max"],
+                       "pools_seen": res["pools_seen"], "distinct_outcomes": len(res["observations"])},
+            "counters": {"schedules": res["schedules"], "thread_harnesses": 1,
+                         "thread_harnesses_with_2+_threads": int(res["schedules"] > 1),
+                         "thread_harnesses_without_controlled_pool": int(res["pools_seen"] == 0)}}
+
+
+def thread_cases(tier):
+    """(case, preemption bound)"""
+    pool = MULTI[:5] if tier == "quick" else MULTI
+    two_tasks = [n for n in pool if "src" in SHAPES[n]]
+    k = 0
+    for pair in itertools.permutations(pool, 2):
+        for par in (2, True):
+            case = (pair, "none", base_opts(strategy="always", doc_sync="update", recursive=True, parallel=par), "sync_projects")
+            yield case, 1
+            if pair[0] in two_tasks and pair[1] in two_tasks and par == 2:
+                k += 1
+                if tier != "quick" or k % 3 == 1:
+                    yield case, 2
+    for tri in itertools.permutations(pool[:4], 3):
+        if tier == "quick" and tri[0] != pool[0]:
+            continue
+        for par in (2, True):
+            yield (tri, "none", base_opts(strategy="update", doc_sync="bykey-fn", recursive=True, exclude="list", parallel=par),
+                   "sync_projects"), (1 if tier == "quick" else 2)
 
 
 def replay_case(payload, prop):
@@ -694,4 +773,6 @@ def replay_case(payload, prop):
     i = payload["input"]
     kind = i.get("kind", "case")
     case = (tuple(i["shapes"]), i["pdoc"], i["opts"], i["entry"])
+    if kind == "tparallel":
+        return _evaluate((kind, case, i["bound"]))["viol"]
     return _evaluate((kind, case))["viol"]
